@@ -25,7 +25,7 @@ from hsim.worlds.udp import UdpWorld
 
 PROPERTY = "C18"
 CHUNK = {"quick": 10, "thorough": 24}
-PROBES = ["second_log_window", "paused_beside_running_window", "window_overflow", "aged_out_entry_kept_visible", "refilter_after_freeze", "refilter_after_session_gone",
+PROBES = ["same_filter_applied_again", "selection_dependent_filter", "second_log_window", "paused_beside_running_window", "window_overflow", "aged_out_entry_kept_visible", "refilter_after_freeze", "refilter_after_session_gone",
           "logged_while_paused_dropped", "clear", "export_import", "type_mismatch_leaf", "nested_depth_3",
           "meta_rhs", "enum_rhs", "glob_selector", "http_entry", "eq_entry", "lludp_entry", "filter_true_and_false_seen",
           "not_node", "or_node", "and_node"]
@@ -60,6 +60,9 @@ LEAVES = [
     ("cmp", "Meta.ReqHeaders.X-Nope", "==", "'1'"), ("cmp", "Meta.AgentID", "==", "AGENT"),
     ("cmp", "Meta.SelectedLocal", "<", "5"), ("cmp", "Meta.AgentLocal", "^=", "'x'"), ("cmp", "Meta.Nope", "==", "1"),
     ("cmp", "Meta.Type", "&", "1"), ("cmp", "Meta.Status", "^=", "'2'"), ("cmp", "Meta.Method", ">", "3"),
+    # resolved when the filter is evaluated, not when the entry was logged: the answer moves with the selection
+    ("cmp", "Meta.CurrentSelectedLocal", "==", "5"), ("cmp", "Meta.CurrentSelectedLocal", "!=", "5"),
+    ("un", "Meta.CurrentSelectedLocal"), ("cmp", "Meta.CurrentSelectedLocal", "<", "9"),
     ("cmp", "ChatFromViewer.ChatData.Channel", "==", "3"), ("cmp", "ChatFromViewer.ChatData.Channel", ">", "2"),
     ("cmp", "ChatFromViewer.ChatData.Channel", "<=", "0"), ("cmp", "ChatFromViewer.ChatData.Channel", "&", "1"),
     ("cmp", "ChatFromViewer.ChatData.Channel", "!=", "7"), ("cmp", "*.ChatData.Message", "~=", "'ell'"),
@@ -114,7 +117,7 @@ def render(t, agent_id: str) -> str:
 
 class Snapshot:
     """What an entry looked like when it was logged (the oracle's data)."""
-    __slots__ = ("type", "name", "meta", "blocks", "headers", "extended", "serial")
+    __slots__ = ("type", "name", "meta", "blocks", "headers", "extended", "serial", "session_alive")
 
     def __init__(self):
         self.type = ""
@@ -123,6 +126,10 @@ class Snapshot:
         self.blocks: Optional[Dict[str, List[Dict[str, Any]]]] = None
         self.headers: Dict[str, str] = {}
         self.extended = None
+        self.session_alive = True
+
+
+NOW = {"selected": None}     # what is selected in the viewer right now (set by the "select" op)
 
 
 def norm(v):
@@ -198,6 +205,8 @@ MISSING = object()
 
 def meta_value(snap: Snapshot, path: List[str]):
     if len(path) == 1:
+        if path[0] == "CurrentSelectedLocal":
+            return NOW["selected"] if snap.session_alive else None
         return snap.meta.get(path[0])
     if len(path) == 2 and path[0] == "ReqHeaders":
         for k, v in snap.headers.items():
@@ -271,8 +280,18 @@ def gen_plan(rng: random.Random, tier: str) -> dict:
     for _ in range(n):
         t = round(t + rng.choice([0.0, 0.002, 0.01, 0.03]), 4)
         x = rng.random()
-        if x < 0.2:
-            steps.append({"at": t, "op": "filter", "tree": gen_tree(rng, rng.choice([0, 1, 2, 3, 4]))})
+        if x < 0.04:
+            steps.append({"at": t, "op": "select", "local": rng.choice([None, 5, 5, 7, 12])})
+        elif x < 0.07 and any(s_["op"] == "filter" for s_ in steps):
+            # the operator presses return in the filter box again (same text): the view is re-evaluated
+            last = [s_ for s_ in steps if s_["op"] == "filter"][-1]
+            steps.append({"at": t, "op": "filter", "tree": last["tree"], "again": True})
+        elif x < 0.2:
+            tree = gen_tree(rng, rng.choice([0, 1, 2, 3, 4]))
+            if rng.random() < 0.12:
+                cs = [i for i, l in enumerate(LEAVES) if "CurrentSelectedLocal" in l[1]]
+                tree = ["leaf", rng.choice(cs)] if rng.random() < 0.5 else ["and", tree, ["leaf", rng.choice(cs)]]
+            steps.append({"at": t, "op": "filter", "tree": tree})
         elif x < 0.25:
             steps.append({"at": t, "op": "pause", "on": rng.random() < 0.6})
         elif x < 0.28:
@@ -343,6 +362,7 @@ def run_plan(plan: dict) -> RunResult:
                                                      import_log_entries)
 
     res = RunResult()
+    NOW["selected"] = None
     cfg = plan["cfg"]
     stopped = []
 
@@ -381,6 +401,7 @@ def run_plan(plan: dict) -> RunResult:
                     if stopped:
                         return ret
                     try:
+                        snap.session_alive = entry.session is not None
                         want = eval_tree(model["tree"], snap, agent_id)
                     except Exception as e:
                         violate("HARNESS/evaluator-raised", exc=repr(e)[:200], filter=model["filter_text"])
@@ -512,6 +533,7 @@ def run_plan(plan: dict) -> RunResult:
                     continue
                 seen.add(id(e))
                 snap = snaps[id(e)]
+                snap.session_alive = e.session is not None
                 want = eval_tree(model["tree"], snap, agent_id)
                 state["seen_true" if want else "seen_false"] = True
                 results = []
@@ -560,7 +582,13 @@ def run_plan(plan: dict) -> RunResult:
                     res.probe("refilter_after_session_gone")
             # model first (what the view must become)
             old_visible = model["visible"]
+            if st.get("again"):
+                res.probe("same_filter_applied_again")
+            if any("CurrentSelectedLocal" in LEAVES[i][1] for i in leaves_of(tree)):
+                res.probe("selection_dependent_filter")
             try:
+                for e in list(old_visible) + list(model["ring"]):
+                    snaps[id(e)].session_alive = e.session is not None
                 aged = [e for e in old_visible if not any(e is r for r in model["ring"])
                         and eval_tree(tree, snaps[id(e)], agent_id)]
                 fresh = [e for e in model["ring"] if eval_tree(tree, snaps[id(e)], agent_id)]
@@ -575,6 +603,12 @@ def run_plan(plan: dict) -> RunResult:
                 return violate("C18/filter/set_filter-raised", filter=text, exc=repr(ex)[:200])
             check_matches("set_filter")
             check_view("set_filter")
+
+        def op_select(st):
+            # what the app's selection tracking does when the viewer (de)selects an object
+            res.fault("operator_selects_object")
+            spec.session.selected.object_local = st["local"]
+            NOW["selected"] = st["local"]
 
         def op_pause(st):
             flogger.set_paused(st["on"])
@@ -666,7 +700,7 @@ def run_plan(plan: dict) -> RunResult:
             driver.op_disconnect(st)
             state["session_gone"] = True
 
-        ops = {"filter": op_filter, "pause": op_pause, "clear": op_clear, "export": op_export, "http": op_http,
+        ops = {"select": op_select, "filter": op_filter, "pause": op_pause, "clear": op_clear, "export": op_export, "http": op_http,
                "eq": op_eq, "disconnect": op_disconnect, "ucc": driver.op_ucc, "vsend": driver.op_vsend,
                "ssend": driver.op_ssend}
         for i, st in enumerate(plan["steps"]):
